@@ -1,5 +1,6 @@
 //! Correspondence-check harness: reads one JSON case per line on stdin, runs it against the
 //! mini-mcmc implementation in /repo's working tree (hooks on), prints one JSON result per line.
+mod c01;
 mod c05;
 mod c09;
 mod util;
@@ -17,6 +18,7 @@ fn main() {
         }
         let case: serde_json::Value = serde_json::from_str(&line).expect("json case");
         let res = util::guarded(|| match pid.as_str() {
+            "C01" => c01::run(&case),
             "C05" => c05::run(&case),
             "C09" => c09::run(&case),
             p => panic!("unknown property {p}"),
